@@ -524,7 +524,7 @@ theorem mj_elects_highest_medians (tb : TieBreaking) (cfg : Cfg) (votes : SProfi
 def plainCfg (fn : Agg) : Cfg := { fn := fn, unscored := .none, minCount := 0, trunc := .off, bottom := 0 }
 
 
-/-- **The STAR run-off between two finalists is the pairwise comparison.**  Let the run-off table `pw` (what
+/-- **A Schulze run-off over a table mentioning two finalists is the pairwise comparison** (any table shape).  Let the run-off table `pw` (what
     `STAR.evaluate` hands to the Schulze evaluator) mention exactly the two finalists `a ≠ b`, with `x` voters
     preferring `a` to `b` and `y` preferring `b` to `a`.  Then one seat goes to `a` if `x > y`, to `b` if `y > x`, and a
     tie of the two is reported if `x = y`. -/
@@ -570,12 +570,49 @@ theorem star_runoff_pairwise (pw : PairCounts) (a b : Cand) (hab : a ≠ b) (hne
     · subst h
       exact ⟨[b, a], by simp, by intro c; simp; tauto⟩
 
-/-- `STAR.evaluate` is the Schulze evaluation of its run-off table (so `star_runoff_pairwise` speaks about the
-    evaluator's result whenever the run-off has two finalists) -/
+/-- **STAR = Schulze among the run-off members.**  `STAR.evaluate` (after fix 03ef346) computes the sum aggregates,
+    takes as run-off members every candidate named by `get_n_best(sums, runoff_size)` — candidates tied at the boundary
+    all enter (`starMembers_spec`) —, elects a lone member directly, and otherwise returns the Schulze selection on the
+    member matrix, which holds for every ordered pair of distinct members the number of voters preferring the first to
+    the second (`memberPairs_getPair`).  This is the statement for run-offs of any size. -/
 theorem star_eq_schulze_of_runoff (ac : Nat) (af : Rat) (cfg : Cfg) (votes : SProfile) (n : Nat) :
-    Score.star ac af cfg votes n = (starRunoff ac af cfg votes n).map (fun pw => schulze pw n) := by
-  unfold Score.star
-  cases starRunoff ac af cfg votes n <;> rfl
+    Score.star ac af cfg votes n =
+      (convert { cfg with fn := .sum } votes).map (fun agg =>
+        let members := starMembers (getNBest agg (starSize ac af n))
+        if members.length ≤ 1 then (members.take n).map Slot.cand
+        else schulze (memberPairs (pairCounts (starUnscored cfg) votes) members) n) := by
+  unfold Score.star starRunoff
+  cases convert { cfg with fn := .sum } votes with
+  | error e => rfl
+  | ok agg =>
+    simp only [bind, Except.bind, pure, Except.pure, Except.map]
+    split <;> rfl
+
+/-- who is in the run-off: exactly the candidates the selection names, individually or inside a boundary tie; each once -/
+theorem star_members_spec (slots : List Slot) :
+    (∀ x, x ∈ starMembers slots ↔ ∃ s ∈ slots, x ∈ slotNames s) ∧ (starMembers slots).Nodup :=
+  starMembers_spec slots
+
+/-- what the run-off evaluator is given: for distinct members `a`, `b` the pairwise count of `a` over `b` -/
+theorem star_member_matrix (all : PairCounts) (ms : List Cand) (h : ms.Nodup) (a b : Cand)
+    (ha : a ∈ ms) (hb : b ∈ ms) (hab : a ≠ b) :
+    getPair (memberPairs all ms) a b = getPair all a b ∧
+    ∀ p ∈ memberPairs all ms, p.1.1 ∈ ms ∧ p.1.2 ∈ ms ∧ p.1.1 ≠ p.1.2 := by
+  refine ⟨memberPairs_getPair all h ha hb hab, ?_⟩
+  intro p hp
+  have := mem_memberPairs.mp hp
+  exact ⟨this.1, this.2.1, this.2.2.1⟩
+
+/-- **Two finalists, one seat: STAR elects the pairwise-preferred one.**  If the run-off members are `a ≠ b`, with `x`
+    voters preferring `a` to `b` and `y` preferring `b` to `a` (pairwise counts are non-negative), the Schulze run-off
+    on the member matrix returns `a` if `x > y`, `b` if `y > x`, and a tie of the two otherwise. -/
+theorem star_two_finalists (all : PairCounts) (hpos : ∀ p ∈ all, 0 ≤ p.2) (a b : Cand) (hab : a ≠ b) :
+    schulze (memberPairs all [a, b]) 1 =
+      if getPair all b a < getPair all a b then [Slot.cand a]
+      else if getPair all a b < getPair all b a then [Slot.cand b]
+      else [Slot.tie [a, b]] := by
+  rw [memberPairs_two all hab]
+  exact schulze_two_both a b hab _ _ (getPair_nonneg hpos a b) (getPair_nonneg hpos b a)
 
 /-- the ordinary single-winner case on a concrete profile: candidate 0 leads on scores (13 : 6 : 0) and loses the run-off
     to candidate 1, whom three of the five voters prefer -/
@@ -583,6 +620,25 @@ example : Score.star 1 0 (plainCfg .sum) [([(0, 5), (1, 0), (2, 0)], 2), ([(0, 1
     = .ok [Slot.cand 1] := by decide +kernel
 example : convert (plainCfg .sum) [([(0, 5), (1, 0), (2, 0)], 2), ([(0, 1), (1, 2), (2, 0)], 3)]
     = .ok [(0, 13), (1, 6), (2, 0)] := by decide +kernel
+
+/-! #### what fix 03ef346 repaired: the pre-fix definition `starPreFix` against the current `star` on the three witnesses -/
+
+/-- a run-off of one candidate: nobody was elected; now the candidate is -/
+theorem star_single_runoff_fixed :
+    starPreFix 0 0 (plainCfg .sum) [([(0, 5), (1, 2)], 2), ([(0, 1), (1, 3)], 1)] 1 = .ok [] ∧
+    Score.star 0 0 (plainCfg .sum) [([(0, 5), (1, 2)], 2), ([(0, 1), (1, 3)], 1)] 1 = .ok [Slot.cand 0] := by
+  decide +kernel
+
+/-- candidates tied at the run-off boundary were dropped, leaving the leader without an opponent; now they all enter -/
+theorem star_boundary_tie_fixed :
+    starPreFix 1 0 (plainCfg .sum) [([(0, 5), (1, 1), (2, 1)], 2)] 1 = .ok [] ∧
+    Score.star 1 0 (plainCfg .sum) [([(0, 5), (1, 1), (2, 1)], 2)] 1 = .ok [Slot.cand 0] := by decide +kernel
+
+/-- finalists nobody ranks strictly apart vanished; now they are reported as tied -/
+theorem star_member_dropped_fixed :
+    starPreFix 1 0 (plainCfg .sum) [([(0, 5), (1, 5), (2, 0)], 2), ([(0, 4), (1, 4), (2, 1)], 1)] 1 = .ok [] ∧
+    Score.star 1 0 (plainCfg .sum) [([(0, 5), (1, 5), (2, 0)], 2), ([(0, 4), (1, 4), (2, 1)], 1)] 1
+      = .ok [Slot.tie [0, 1]] := by decide +kernel
 
 /-! ### Allocated score -/
 
@@ -638,19 +694,6 @@ theorem mj_default_tiebreak_witness :
 theorem mj_default_tiebreak_scale_witness :
     majorityJudgment .default (plainCfg .medianLow) [([(1, 1), (2, 2), (3, 1)], 6), ([(3, 2)], 3)] 2
       = .ok [Slot.cand 2, Slot.cand 3] := by decide +kernel
-
-/-- STAR with a run-off of one candidate elects nobody -/
-theorem star_single_runoff_witness :
-    Score.star 0 0 (plainCfg .sum) [([(0, 5), (1, 2)], 2), ([(0, 1), (1, 3)], 1)] 1 = .ok [] := by decide +kernel
-
-/-- STAR drops the candidates tied at the run-off boundary, here leaving the score leader without an opponent -/
-theorem star_boundary_tie_witness :
-    Score.star 1 0 (plainCfg .sum) [([(0, 5), (1, 1), (2, 1)], 2)] 1 = .ok [] := by decide +kernel
-
-/-- STAR loses finalists that nobody ranks strictly apart -/
-theorem star_member_dropped_witness :
-    Score.star 1 0 (plainCfg .sum) [([(0, 5), (1, 5), (2, 0)], 2), ([(0, 4), (1, 4), (2, 1)], 1)] 1 = .ok [] := by
-  decide +kernel
 
 /-- Allocated score: a ballot that grades only the elected candidate makes the next round raise `ValueError` -/
 theorem allocated_empty_ballot_witness :
